@@ -399,6 +399,38 @@ def exec_history(arg) -> dict:
             ev["outcome"] = {"k": o["k"]} if o["k"] == "ok" else R.strip(o)
             if o["k"] == "ok":
                 docs[op["slot"]] = (doc, frames, ri)
+        elif kind == "copy":
+            ent = docs.get(op["slot"])
+            if ent is None:
+                ev["skipped"] = True
+                log.append(ev)
+                continue
+            doc, frames, ri = ent
+            ev["recipe"] = ri
+            how = op["how"]
+            holder = {}
+
+            def make_copy():
+                import copy as _copy
+                import pickle as _pickle
+
+                if how == "deepcopy":
+                    holder["c"] = _copy.deepcopy(doc)
+                elif how == "copy":
+                    holder["c"] = _copy.copy(doc)
+                elif how == "model_copy":
+                    holder["c"] = doc.model_copy()
+                elif how == "model_copy_deep":
+                    holder["c"] = doc.model_copy(deep=True)
+                else:
+                    holder["c"] = _pickle.loads(_pickle.dumps(doc))
+                return "copied"
+
+            o = R.outcome_of(make_copy)
+            o.pop("_text", None)
+            ev["outcome"] = {"k": "ok"} if o["k"] == "ok" else R.strip(o)  # recorded, not judged: no reference for it
+            if o["k"] == "ok":
+                docs[op["to"]] = (holder["c"], frames, ri)
         elif kind == "drop":
             if op["slot"] in docs:
                 del docs[op["slot"]]
@@ -731,6 +763,30 @@ CONTEXT_EDITS = [
 ]
 
 
+COPY_HOWS = ["deepcopy", "deepcopy", "model_copy", "model_copy_deep", "copy", "pickle"]
+
+
+def add_copy_ops(plan: dict, rng, p: float = 0.25) -> None:
+    """The caller copies a live document (copy.deepcopy, copy.copy, pydantic model_copy, pickle round trip) and
+    encodes copy and original: an equal-valued document, so the same reference applies.  Own random stream, applied
+    after generation: older seeds keep the rest of their plans."""
+    if rng.random() >= p:
+        return
+    cands = [i for i, o in enumerate(plan["ops"]) if o["op"] == "encode" and not o.get("epilogue")]
+    if not cands:
+        return
+    for n_, i in enumerate(sorted(rng.sample(cands, min(len(cands), rng.choice([1, 1, 2]))), reverse=True)):
+        s = plan["ops"][i]["slot"]
+        to = 200 + n_
+        extra = [{"op": "copy", "slot": s, "to": to, "how": rng.choice(COPY_HOWS)}, {"op": "encode", "slot": to}]
+        if rng.random() < 0.7:
+            extra.append({"op": "encode", "slot": s})
+        if rng.random() < 0.3:
+            extra.append({"op": "encode", "slot": to})
+        at = i + 1 if rng.random() < 0.7 else i  # mostly after the original has been encoded once, sometimes before
+        plan["ops"][at:at] = extra
+
+
 def external_probe_recipes(rng) -> list:
     """Documents whose cell text or row measurements pass through state that lives outside the package:
     list-valued cells (rendered and measured through the data-frame library's own text form), floats, dates,
@@ -922,6 +978,7 @@ def job(j: dict) -> dict:
         amb = arng.choice(R.AMBIENTS)
         for r in plan["recipes"]:
             r["ambient"] = amb
+    add_copy_ops(plan, core.rng_for(root, PROP, "copies", idx))
     ncal = R.resolve_calibration(plan["recipes"], ws.setdefault("calib_cache", {}))
     refs = ws["refcache"].for_plan(plan)
     t0 = time.monotonic()
@@ -994,6 +1051,10 @@ def summarise(plan, res, refs, idx) -> dict:
         "natural_types": sorted({refs[str(e["recipe"])]["encode"]["type"] for e in nat}),
         "drops": sum(1 for e in log if e["op"] == "drop" and not e.get("skipped")),
         "mutations": sum(1 for e in log if e["op"] == "mutate" and not e.get("skipped")),
+        "ambient": bool(R.plan_ambient(plan["recipes"])),
+        "copies": sum(1 for e in log if e["op"] == "copy" and not e.get("skipped")),
+        "copies_failed": sum(1 for e in log if e["op"] == "copy" and not e.get("skipped")
+                             and (e.get("outcome") or {}).get("k") != "ok"),
         "shared_hits": res["shared_hits"], "hit_kinds": res["hit_kinds"],
         "paths": sorted({plan["recipes"][e["recipe"]]["kind"] for e in checked}),
         "states": sorted(states), "trans": sorted(trans), "nontrivial": sorted(nontrivial),
@@ -1226,6 +1287,10 @@ def write_evidence(opts, good, nres, truncated, xres, n_new, n_known, wall_s, he
                              "exception_types": abort_excs},
             "drop_and_gc": {"fired": sum(r["drops"] for r in good)},
             "component_replaced_between_encodes": {"fired": sum(r.get("mutations", 0) for r in good)},
+            "document_copied_by_caller": {"fired": sum(r.get("copies", 0) for r in good),
+                                          "copy_raised": sum(r.get("copies_failed", 0) for r in good),
+                                          "how": COPY_HOWS},
+            "ambient_process_configuration": {"histories": sum(1 for r in good if r.get("ambient"))},
         },
         "histories_by_fault_mode": modes,
         "histories_fault_free": modes.get("none", 0),
@@ -1234,7 +1299,8 @@ def write_evidence(opts, good, nres, truncated, xres, n_new, n_known, wall_s, he
         "measurement_boundary_documents": sum(r.get("calibrated_docs", 0) for r in good),
         "greybox_followups": {"histories": sum(r.get("followups", 0) for r in good),
                               "checked_encodes": sum(r.get("followup_checked_encodes", 0) for r in good),
-                              "trigger": "an encode changed a component object held by the document"},
+                              "trigger": "an encode or construction changed a component object held by the "
+                                         "document, or an operation left process state outside the package changed"},
         "sharing": {"shared_object_reuses": sum(r["shared_hits"] for r in good), "by_component": hit_kinds},
         "encode_paths_checked": paths,
         "state_sweep": {"histories_swept": len(swept),
